@@ -152,6 +152,18 @@ def generate(ctx, n_ops):
             src, dst = ctx.gen_units()
         ps = ctx.si_prefix() if rng.random() < 0.3 else None
         pd = ctx.si_prefix() if rng.random() < 0.3 else None
+        if synthetic and names and rng.random() < 0.06:
+            # exactly the prefixed form an equivalence was DECLARED on (1 kE = 5000 C), against any unit of the
+            # system, in either direction and at a power: the declaration's prefix must count once
+            from measured import Prefix
+            kilo = Prefix._by_name["kilo"]
+            e = rng.choice([1, 1, 2, -1])
+            E = ctx.sess.units[names["E"]]
+            other = rng.choice(synthetic + [Unit._by_name["meter"]])
+            if rng.random() < 0.5:
+                src, dst, ps, pd = [(E, e)], [(other, e)], kilo, None
+            else:
+                src, dst, ps, pd = [(other, e)], [(E, e)], None, kilo
         g = ctx.build(src, ps)
         a = None
         try:
